@@ -42,6 +42,19 @@ def run(chk):
     chk.not_decided += ["rotenc_count14 agrees with the latched position modulo 2^14 at all times"]
     m = build.load_unit("librfn/rotenc.c")
     chk.note_unit(m)
+    if not m.has_fn("rotenc_decode"):
+        # rotenc_decode is no longer a function of rotenc.c (a header inline or a macro in front of one): analyse it as a caller
+        # sees it - a witness that calls the API name, linked with rotenc.c, everything inlined
+        m = build.api_view("c19_api.c", "#include <librfn/rotenc.h>\nvoid w_decode(rotenc_t *r, uint8_t state) { rotenc_decode(r, state); }\n"
+                           "uint16_t w_count14(rotenc_t *r) { return rotenc_count14(r); }\n", ["librfn/rotenc.c"], ["w_decode", "w_count14"])
+        chk.note_unit(m)
+        m.functions["rotenc_decode"] = m.functions["w_decode"]
+        m.functions["rotenc_count14"] = m.functions["w_count14"]
+    # the API name used with an argument that has a side effect (reading the pins): evaluated once
+    from . import macrohyg
+    chk.rule("Q7", "rotenc_decode(r, read_pins()) samples the pins exactly once (whatever the header makes of the name)")
+    macrohyg.check_single_evaluation(chk, "Q7.single-evaluation", "librfn/rotenc.h", [
+        ("rotenc_decode(r, next())", "void w_once(rotenc_t *r, uint8_t (*next)(void)) { rotenc_decode(r, next()); }")])
     fn = m.fn("rotenc_decode")
     chk.note_fn(fn)
     F = fields(m)
